@@ -2,7 +2,7 @@
 
 use crate::{BoxedUint, ConstantTimeSelect, Limb, ShrVartime, WrappingShr, Zero};
 use core::ops::{Shr, ShrAssign};
-use subtle::{Choice, ConstantTimeLess, CtOption};
+use subtle::{Choice, ConditionallySelectable, ConstantTimeLess, CtOption};
 
 impl BoxedUint {
     /// Computes `self >> shift`.
@@ -46,7 +46,9 @@ impl BoxedUint {
         // (which lies in range `0 <= shift < bits_precision`).
         let shift_bits = u32::BITS - (self.bits_precision() - 1).leading_zeros();
         let overflow = !shift.ct_lt(&self.bits_precision());
-        let shift = shift % self.bits_precision();
+        // An overflowing shift zeroes the result below, so the amount is cleared in constant time rather than
+        // reduced with `%`: that is a hardware division fed with the (possibly secret) shift amount.
+        let shift = u32::conditional_select(&shift, &0, overflow);
         let mut temp = self.clone();
 
         for i in 0..shift_bits {
